@@ -14,7 +14,9 @@ EXPLANATION = (
     "into Completed from a deferring state carries EndDeferral; every arm that can shrink `pending` ends in an emptiness test "
     "(finish_awaiting / finish_deferring / inline is_empty) so the machine cannot stay deferring with nothing pending; "
     "StartDeferralTimer only on AwaitingStart -> Deferring; TimerExpired is handled in Deferring and ends deferral for the "
-    "remaining families; a peer established without GR families takes the remove_peer arm; new() with no GR peer starts "
+    "remaining families; a peer established without GR families takes the remove_peer arm; wherever a family is taken out of a "
+    "peer's awaited set the peer leaves the map under nothing more than that set's emptiness test (no empty entry can keep the "
+    "map non-empty); new() with no GR peer starts "
     "Completed; R11.2 table side = R06.4 (NoChange only after storing; end_deferral re-emits everything); R11.3 glue: "
     "FamilyDeferralComplete / EndDeferral(remaining) reach end_deferral_families, EndDeferral clears selection_deferral and "
     "aborts the timer, the timer task feeds TimerExpired, disconnect feeds PeerWithdrawn. Decides the machine's structure, not "
@@ -224,6 +226,8 @@ def run(prog, rep, tier):
         r1.ok("new(): emits DeferFamilies")
     else:
         r1.fail(nv.name, "new-no-defer", "new() never emits DeferFamilies", nv.loc())
+
+    check_emptied_sets(prog, r1)
 
     r2 = rep.rule("R11.2", "table side of deferral (shared with R06.4)")
     c06.check_deferral(prog, r2)
@@ -435,3 +439,64 @@ def check_end_deferral_dedup(prog, r):
                        "times, and each listing re-announces every held-back prefix of that family", fv.loc(bi))
     if n == 0:
         r.unanalysable("RestartingDeferral::process: no EndDeferral construction found")
+
+
+# ------------------------------------------------------------------------------------------ R11.1 (ix)
+_SET_REMOVE = re.compile(r".*HashSet::<T, S(, A)?>::(remove|take)$")
+_MAP_CLEAN = re.compile(r".*(HashMap::<K, V, S(, A)?>::(remove|remove_entry|retain)|OccupiedEntry::<.*>::(remove|remove_entry))$")
+
+
+def check_emptied_sets(prog, r1):
+    """Completion is decided by the emptiness of the map of awaited peers (finish_awaiting / finish_deferring / the EOR arm), so
+    no peer may stay in it with an empty family set.  Wherever a family is taken out of a peer's set, the peer leaves the map
+    as soon as that set is empty: a map removal (or a retain sweep) follows under nothing more than the set's emptiness test.
+    A clean-up that runs only when some other condition holds (the family completed, the EOR was the first ..) leaves the
+    empty entry behind on the other paths, and EndDeferral is then never emitted although nobody is awaited."""
+    n = 0
+    for k in crate_fns(prog, "rustybgpd"):
+        nm = prog.ix[k]["name"]
+        if not nm.startswith("rustybgpd::gr::RestartingDeferral::") or "::tests::" in nm:
+            continue
+        fv = view(prog, k)
+        sites = list(fv.calls(_SET_REMOVE))
+        if not sites:
+            continue
+        brs = branches(fv)
+        key = lambda g, l: (repr(g[:3]) if g and g[0] == "call" else repr(g), frozenset(l))
+        cleans = []
+        for bi, t in fv.calls(re.compile(r".*")):
+            names = callee_names(t)
+            direct = any(_MAP_CLEAN.match(c) for c in names)
+            via = False
+            if not direct:
+                for c in names:
+                    if c.startswith("rustybgpd::gr::"):
+                        for kk in prog.by_name.get(c, []):
+                            if any(tk.startswith("call:") and _MAP_CLEAN.match(tk[5:]) for tk in fn_tokens(prog, kk, depth=2)):
+                                via = True
+            if direct or via:
+                cleans.append(bi)
+        for bi, t in sites:
+            n += 1
+            base = {key(g, l) for g, l, h in flat_guards(fv, bi, brs)}
+            after = fv.reach_after(bi)
+            verdict = None
+            for cb in cleans:
+                if cb != bi and cb not in after:
+                    continue
+                extra = [(g, l) for g, l, h in flat_guards(fv, cb, brs) if key(g, l) not in base]
+                if all(g[0] == "call" and g[1].endswith("::is_empty") and set(l) == {"true"} for g, l in extra):
+                    verdict = "ok"
+                    break
+                verdict = verdict or ("conditional", cb, extra)
+            if verdict == "ok":
+                r1.ok("%s line %d: a peer whose family set is emptied leaves the map of awaited peers (clean-up under the emptiness test alone)" % (short(root_name(prog, k)), fv.line(bi)))
+            elif verdict is None:
+                r1.fail(root_name(prog, k), "emptied-set-kept", "a family is removed from a peer's awaited set (line %d) and the peer is never taken out of the map of awaited peers when "
+                        "its set becomes empty: the map stays non-empty and EndDeferral is never emitted" % fv.line(bi), fv.loc(bi))
+            else:
+                _, cb, extra = verdict
+                r1.fail(root_name(prog, k), "emptied-set-cleanup-conditional", "a family is removed from a peer's awaited set (line %d) but the emptied entry is only swept (line %d) when %s also "
+                        "holds: on the other paths the empty entry stays in the map of awaited peers, so a later peer-down / non-GR re-establish of the last awaited peer "
+                        "does not end the deferral" % (fv.line(bi), fv.line(cb), "; ".join("%s = %s" % (show(g, 80), "/".join(sorted(l))) for g, l in extra[:2])), fv.loc(bi))
+    r1.floor("family removals from a peer's awaited set", n, 1)
